@@ -112,6 +112,11 @@ func check(c Case) vk.Verdict {
 		cfg.Lock = lk
 	}
 	app := fiber.New(fiber.Config{EnableSplittingOnParsers: c.Split})
+	// a middleware in front of the idempotency middleware sets a per-request response header (a request id)
+	app.Use(func(ctx fiber.Ctx) error {
+		ctx.Set("X-Up", "up-"+ctx.Get("X-G"))
+		return ctx.Next()
+	})
 	app.Use(idempotency.New(cfg))
 	var mu sync.Mutex
 	started := map[int]bool{}
@@ -142,7 +147,7 @@ func check(c Case) vk.Verdict {
 			return out
 		}
 		sig := fmt.Sprintf("%d|%q", resp.StatusCode(), resp.Body())
-		for _, h := range []string{"X-Rep", "X-Multi", "Set-Cookie"} {
+		for _, h := range []string{"X-Rep", "X-Multi", "Set-Cookie", "X-Up"} {
 			if kept(h) {
 				vals := pa(h)
 				if h == "X-Multi" && c.Split {
@@ -181,6 +186,11 @@ func check(c Case) vk.Verdict {
 			err = fiber.NewError(418, "handler failed")
 		case my%3 == 0:
 			err = ctx.SendStatus(204)
+			e.ok = true
+		case my%4 == 1:
+			// success without a body (e.g. "created, see Location")
+			ctx.Set("Location", fmt.Sprintf("/item/%d", my))
+			ctx.Status(201)
 			e.ok = true
 		default:
 			err = ctx.Status(201).SendString(fmt.Sprintf("exec-%d", my))
